@@ -27,7 +27,11 @@ PRIMS = ("number", "boolean", "string")
 STRUCT_NAMES = ["Order", "Part", "Sheet", "Color", "Result", "Spec", "Batch"]
 ATTR_POOL = ["count", "flag", "label", "items", "inner", "size", "tag", "parts", "next", "ok",
              "ratio", "name", "dims", "spec", "codes", "marks"]
-STRINGS = ["a", "b c", "x_1", "green", "", "In", "End"]
+# string literals of struct literals (JSON strings: no raw control characters) ...
+STRINGS = ["a", "b c", "x_1", "green", "", "In", "End", "RAL # 6018", "green #1", "#00ff00", "green#6018",
+           "a # b # c", " #", "Task # End"]
+# ... and of expressions (the STRING token admits any character)
+EXPR_STRINGS = STRINGS + ["a\t#b", "x \t # y"]
 NUMS = [Fraction(0), Fraction(1), Fraction(2), Fraction(3), Fraction(5), Fraction(-1), Fraction(-2),
         Fraction(1, 2), Fraction(3, 2), Fraction(10), Fraction(255), Fraction(-7, 4)]
 NONZERO = [Fraction(1), Fraction(2), Fraction(-1), Fraction(4), Fraction(1, 2), Fraction(-2)]
@@ -232,7 +236,7 @@ class WGen:
         if cands and r.random() < 0.5:
             v, p = r.choice(cands)
             return ("path", v, p)
-        return ("str", r.choice(STRINGS))
+        return ("str", r.choice(EXPR_STRINGS))
 
     def bool_expr(self, env, depth):
         r = self.rng
